@@ -7,6 +7,7 @@ package fbb
 import (
 	"bytes"
 	"strings"
+	"unicode/utf8"
 
 	"github.com/paulrosania/go-charset/charset"
 	_ "github.com/paulrosania/go-charset/data"
@@ -33,6 +34,11 @@ func StringToBody(str, encoding string) ([]byte, error) {
 		for {
 			// Lines can not be longer that 1000 characters including CRLF.
 			n := min(len(line), 1000-2)
+
+			// Don't break the line in the middle of a multi-byte character.
+			for n > 0 && n < len(line) && !utf8.RuneStart(line[n]) {
+				n--
+			}
 
 			out.WriteString(line[:n])
 			out.WriteString("\r\n")
